@@ -1,5 +1,5 @@
-# NOTE for mutation experiments: go honours only the LAST -overlay flag, so VERIF_GO_FLAGS=-overlay=X replaces the
-# shim overlay given in go_flags below.  Build X with harness/c19/overlay/merge_overlay.py (it adds the shim).
+# NOTE: bin/check merges a VERIF_GO_FLAGS=-overlay=X development overlay with the shim overlay given in go_flags below
+# (go honours only the last -overlay flag); harness/c19/overlay/merge_overlay.py does the same by hand.
 CONFIG = dict(
     id="C19",
     engine="bubble (virtual clock), white-box shim added by go -overlay",
@@ -24,7 +24,7 @@ CONFIG = dict(
     required_theorems=["worldInv_reachable", "scenes_lines_bijection", "line_ids_unique_sorted", "new_line_is_mex",
                        "end_removes_exactly_one", "lost_removes_exactly_affected", "end_unknown_noop", "repeated_loss_idempotent",
                        "request_returns_same_cfg_live_or_none", "alloc_only_on_working", "alloc_prefers_least_busy",
-                       "alloc_ids_fresh", "tick_removes_exactly_lost", "tick_any_order", "lost_any_order", "loss_only_after_silence"],
+                       "alloc_ids_fresh", "failed_spawn_registers_nothing", "tick_removes_exactly_lost", "tick_any_order", "lost_any_order", "loss_only_after_silence"],
     harness_pkg="./c19",
     go_flags=["-overlay=/verif/harness/c19/overlay/overlay.json"],
     mode="accept",
@@ -40,7 +40,7 @@ CONFIG = dict(
          "refreshed 4): alloc (placement) and create-success for allocated ids (sometimes delayed or dropped), for own fresh ids, on unknown/lost "
          "services; ends of live / already ended / unknown ids; refreshes with loads 0, ties, 4999/5000/5001/7000/2^24-1; clock steps around the "
          "3000 ms threshold; periodic checks; silences of 1-5 rounds (the 4th declares the loss); manager- and world-level losses, repeated; "
-         "requests for populated / empty / unknown configurations; busy-weight comparisons (all adjacent pairs 0..5101 exhaustively); 1 in 8 cases "
+         "requests for populated / empty / unknown configurations; the keeper's creation path through the real SpawnScene (app.Request over a generated cluster view: request sent and later answered ok / with an error / never, or failing at once when the chosen service is not routable);  busy-weight comparisons (all adjacent pairs 0..5101 exhaustively); 1 in 8 cases "
          "is malformed (create-success for a live id: compared with the model, not judged by the property). A case is non-trivial when scenes exist "
          "or a result other than ok is returned; distinct = distinct (op, observation) pairs",
     trusted_base=[
@@ -49,11 +49,13 @@ CONFIG = dict(
         "overlay shim harness/c19/overlay/export_verif.go (package scenem, added at build time, /repo untouched): read-only accessors and direct calls of onUpdate / onServiceLost / World.OnServiceLost",
         "float32 GetBusyWeight (CPURate is never set) abstracted to the integer key min(n,5000); compared with the real function on every adjacent pair 0..5101 and on sampled pairs up to 2^24-1 in every run",
         "Go map iteration order and math/rand are arbitrary: the theorems quantify over every visiting order / draw, the driver accepts any least-busy working service and any line of the configuration",
+        "SpawnScene requests are routed by the real app.Request/route/cluster directory over a generated view (UpdateClusterTopology); the scene service's answer is a ServiceResponse handed to the real Service.handleResponse",
         "harness canonicalisation (maps sorted, lines in slice order, keep-alive times as virtual idle milliseconds inside a testing/synctest bubble)",
     ],
     assumptions=[
         "create-success events never name a scene id that is live (proved for ids issued by allocSceneId and confirmed at most once; uint64 wrap-around not modelled)",
-        "the keep-alive check is driven by calling the timer's callback (onUpdate) directly; the 1 s timer wiring of Start() and the public-scene spawner (which sends through the cluster) are not exercised",
+        "the keep-alive check is driven by calling the timer's callback (onUpdate) directly; the 1 s timer wiring of Start() and the public-scene keeper's own timer loop are not run (its creation path SpawnScene is: AllocScene + app.Request + reply callback)",
+        "the manager's NodeService is not spawned as an actor: its Receive is called directly with actor.Started / ServiceResponse and its sends are recorded by a stub actor context; request timeouts (C01) are not driven here, an unanswered request simply stays pending",
         "scene counts reported by services are non-negative and below 2^24",
         "scene id 0 is reserved (RandGetScene uses it for 'none'); allocSceneId starts at 1",
     ],
